@@ -128,6 +128,9 @@ def Event.ok : Event → Prop
   | .appSend _ m => isNew m = true
   | _ => True
 
+instance (ev : Event) : Decidable ev.ok := by
+  cases ev <;> unfold Event.ok <;> infer_instance
+
 /-- a ResendRequest whose EndSeqNo(16) is not `0` (= infinity): open finding D9 -/
 def boundedResend : Event → Bool
   | .recv _ m => m.mtype == mResendRequest && ((m.get? tEndSeqNo).bind pyInt != some 0)
